@@ -46,7 +46,9 @@ var c14Addrs = [c14NA]common.Address{
 }
 var c14AddrNames = [c14NA]string{"A", "B", "C", "D"}
 var c14Slots = [c14NS]common.Hash{{31: 0x01}, {31: 0x02}, {0: 0xff, 31: 0x03}}
-var c14Codes = [][]byte{nil, {0x60, 0x01, 0x00}, {0x60, 0x02, 0x60, 0x03, 0x00}}
+// codes 1 and 2 are deployed in the base state (their blobs are on disk from block 0);
+// codes 3 and 4 only ever reach the disk through the explored histories
+var c14Codes = [][]byte{nil, {0x60, 0x01, 0x00}, {0x60, 0x02, 0x60, 0x03, 0x00}, {0x60, 0x03, 0x60, 0x04, 0x01, 0x00}, {0x60, 0x0a, 0x60, 0x0b, 0x02, 0x00, 0xfe}}
 
 func c14Val(v uint8) common.Hash { return common.Hash{31: v} }
 
@@ -185,6 +187,9 @@ type c14Cfg struct {
 	// Prefix is executed (unobserved) on the base state before the exploration starts:
 	// the explored histories then begin in the middle of a block.
 	Prefix []string
+	// Focus ("A", "C") restricts the alphabet of a dedicated family to the operations on that
+	// one address plus the global operations (boundaries, snapshot/revert, copy).
+	Focus string
 }
 
 func (c *c14Cfg) rules() params.Rules {
@@ -218,7 +223,11 @@ func (o c14Op) name() string {
 	case "create":
 		return "Create(" + c14AddrNames[o.a] + ")"
 	case "setcode":
-		return "SetCode(" + c14AddrNames[o.a] + ",c2)"
+		return fmt.Sprintf("SetCode(%s,c%d)", c14AddrNames[o.a], o.val)
+	case "snapshot":
+		return "Snapshot"
+	case "revert":
+		return "RevertToSnapshot"
 	case "endtx":
 		return "EndTx"
 	case "ir":
@@ -252,7 +261,8 @@ func c14Ops() []c14Op {
 			c14Op{kind: "destruct", a: a},
 			c14Op{kind: "create", a: a},
 			c14Op{kind: "addbal", a: a},
-			c14Op{kind: "setcode", a: a},
+			c14Op{kind: "setcode", a: a, val: 3},
+			c14Op{kind: "setcode", a: a, val: 4},
 		)
 		// "restore" writes: every slot that the alphabet can change can also be written back
 		// to the value it has in the committed base state (A: s0=1, s2=0; C: s0=0 is above, s2=0)
@@ -270,6 +280,30 @@ func c14Ops() []c14Op {
 		}
 	}
 	ops = append(ops, c14Op{kind: "copyOnCopy"}, c14Op{kind: "copyOnOrig"})
+	ops = append(ops, c14Op{kind: "snapshot", a: -1}, c14Op{kind: "revert", a: -1})
+	return ops
+}
+
+func (o c14Op) global() bool {
+	switch o.kind {
+	case "endtx", "endblock", "ir", "copyOnCopy", "copyOnOrig", "snapshot", "revert":
+		return true
+	}
+	return false
+}
+
+// c14OpsFor is the alphabet of one configuration.
+func c14OpsFor(cfg *c14Cfg) []c14Op {
+	all := c14Ops()
+	if cfg.Focus == "" {
+		return all
+	}
+	var ops []c14Op
+	for _, o := range all {
+		if o.global() || c14AddrNames[o.a] == cfg.Focus {
+			ops = append(ops, o)
+		}
+	}
 	return ops
 }
 
@@ -298,6 +332,12 @@ type c14Sys struct {
 	blockOps int
 	copied   bool
 	dirty    bool // a state operation was applied to the live object since its last IntermediateRoot
+	// one Snapshot ... RevertToSnapshot window per transaction on the live object
+	snapOpen  bool
+	snapUsed  bool
+	snapID    int
+	snapOps   int
+	snapModel c14View
 
 	applied   int
 	armed     bool
@@ -306,7 +346,7 @@ type c14Sys struct {
 	initErr   error
 }
 
-var c14FollowUps atomic.Int64
+var c14FollowUps, c14Reverts, c14ColdCode atomic.Int64
 var c14Armed, c14Reopens, c14Persisted, c14AsideSweeps, c14Resurrections, c14Wipes atomic.Int64
 
 func c14NewSys(r *mc.R, cfg *c14Cfg, ops []c14Op) *c14Sys {
@@ -410,6 +450,7 @@ func (x *c14Sys) openBlock() error {
 		s.StartPrefetcher("c14", nil)
 	}
 	x.txOps, x.blockOps, x.copied, x.dirty = 0, 0, false, false
+	x.snapOpen, x.snapUsed = false, false
 	return nil
 }
 
@@ -436,7 +477,7 @@ func (x *c14Sys) Enabled(i int) bool {
 	}
 	o := x.ops[i]
 	var a *c14Acct
-	if o.kind != "endtx" && o.kind != "endblock" && o.kind != "ir" && !strings.HasPrefix(o.kind, "copy") {
+	if !o.global() {
 		a = x.m.cur[o.a]
 	}
 	switch o.kind {
@@ -446,7 +487,11 @@ func (x *c14Sys) Enabled(i int) bool {
 		// SSTORE runs in the context of an existing account; unchanged values are no-ops
 		return a != nil && a.Stor[o.slot] != o.val
 	case "setcode":
-		return a != nil && a.Code != 2
+		return a != nil && a.Code != int(o.val)
+	case "snapshot":
+		return !x.snapOpen && !x.snapUsed
+	case "revert":
+		return x.snapOpen && x.snapOps > 0
 	case "destruct":
 		if a == nil || a.Destructed {
 			return false
@@ -504,8 +549,21 @@ func (x *c14Sys) apply(i int, check bool) error {
 		}
 		m.cur[o.a].Stor[o.slot] = o.val
 	case "setcode":
-		s.SetCode(c14Addrs[o.a], c14Codes[2], tracing.CodeChangeUnspecified)
-		m.cur[o.a].Code = 2
+		s.SetCode(c14Addrs[o.a], c14Codes[o.val], tracing.CodeChangeUnspecified)
+		m.cur[o.a].Code = int(o.val)
+	case "snapshot":
+		x.snapID = s.Snapshot()
+		x.snapModel = m.cur.clone()
+		x.snapOpen, x.snapUsed, x.snapOps = true, true, 0
+		x.txOps--
+		x.blockOps--
+	case "revert":
+		// everything journalled since the snapshot is rolled back: the view of the running
+		// transaction is the one recorded at the snapshot
+		s.RevertToSnapshot(x.snapID)
+		m.cur = x.snapModel.clone()
+		x.snapOpen = false
+		c14Reverts.Add(1)
 	case "destruct":
 		s.SelfDestruct(c14Addrs[o.a])
 		m.cur[o.a].Destructed = true
@@ -526,6 +584,7 @@ func (x *c14Sys) apply(i int, check bool) error {
 		s.Finalise(x.rules)
 		m.endTx()
 		x.txOps = -1
+		x.snapOpen, x.snapUsed = false, false
 	case "ir":
 		// mid-block IntermediateRoot (receipts before Byzantium, miner, tracing): transaction
 		// boundary plus loading and updating the tries
@@ -535,10 +594,12 @@ func (x *c14Sys) apply(i int, check bool) error {
 			return fmt.Errorf("IntermediateRoot %x, root of the model state %x", root, want)
 		}
 		x.txOps = -1
+		x.snapOpen, x.snapUsed = false, false
 	case "copyOnCopy", "copyOnOrig":
 		cp := s.Copy()
 		x.copied = true
 		if o.kind == "copyOnCopy" {
+			x.snapOpen = false // snapshots of the original cannot be applied to the copy
 			x.aside, x.asideWhat, x.s = s, "original", cp
 		} else {
 			x.aside, x.asideWhat = cp, "copy"
@@ -554,9 +615,12 @@ func (x *c14Sys) apply(i int, check bool) error {
 	switch o.kind {
 	case "ir":
 		x.dirty = false
-	case "endtx", "copyOnCopy", "copyOnOrig":
+	case "endtx", "copyOnCopy", "copyOnOrig", "snapshot":
 	default:
 		x.dirty = true
+		if x.snapOpen {
+			x.snapOps++
+		}
 	}
 	x.key = x.computeKey()
 	if !check {
@@ -754,6 +818,28 @@ func (x *c14Sys) checkDB(db Database, tdb *triedb.Database, flat StateReader, ro
 	}
 	if err := c14Compare(s, fresh, what+", reopened StateDB"); err != nil {
 		return err
+	}
+	if s.Error() != nil {
+		return fmt.Errorf("%s, reopened StateDB: Error(): %v", what, s.Error())
+	}
+	// every committed non-empty code hash has its blob on disk, and a code reader with a
+	// cold cache on that disk hands it out
+	cold := NewCodeDB(x.disk).Reader()
+	for i, a := range v {
+		if a == nil || a.Code == 0 {
+			continue
+		}
+		c14ColdCode.Add(1)
+		h := crypto.Keccak256Hash(c14Codes[a.Code])
+		if blob := rawdb.ReadCode(x.disk, h); !bytes.Equal(blob, c14Codes[a.Code]) {
+			return fmt.Errorf("%s: code blob of %s (code %d, hash %x) on disk is %x, model %x", what, c14AddrNames[i], a.Code, h[:4], blob, c14Codes[a.Code])
+		}
+		if got := cold.Code(c14Addrs[i], h); !bytes.Equal(got, c14Codes[a.Code]) {
+			return fmt.Errorf("%s: cold code reader Code(%s)=%x, model %x", what, c14AddrNames[i], got, c14Codes[a.Code])
+		}
+		if got := cold.CodeSize(c14Addrs[i], h); got != len(c14Codes[a.Code]) {
+			return fmt.Errorf("%s: cold code reader CodeSize(%s)=%d, model %d", what, c14AddrNames[i], got, len(c14Codes[a.Code]))
+		}
 	}
 	for i, addr := range c14Addrs {
 		want := types.EmptyRootHash
@@ -1030,7 +1116,7 @@ func c14Finger(b *strings.Builder, s *StateDB) {
 			fmt.Fprintf(b, "%s:j", c14AddrNames[i])
 		}
 	}
-	fmt.Fprintf(b, "J%d", len(s.journal.entries))
+	fmt.Fprintf(b, "J%d/%d", len(s.journal.entries), len(s.journal.validRevisions))
 	if s.trie != nil {
 		b.WriteByte('T')
 	}
@@ -1042,6 +1128,13 @@ func (x *c14Sys) computeKey() string {
 	b.WriteByte('|')
 	x.m.txStart.canon(&b)
 	fmt.Fprintf(&b, "|%d,%d,%v,%v|", min(x.txOps, 1), min(x.blockOps, 1), x.copied, x.dirty)
+	if x.snapOpen {
+		fmt.Fprintf(&b, "S%d:", min(x.snapOps, 1))
+		x.snapModel.canon(&b)
+		b.WriteByte('|')
+	} else if x.snapUsed {
+		b.WriteString("s|")
+	}
 	c14Finger(&b, x.s)
 	if x.aside != nil {
 		b.WriteString("|" + x.asideWhat + "|")
@@ -1066,12 +1159,18 @@ func c14Configs(r *mc.R) []*c14Cfg {
 	return []*c14Cfg{
 		{Name: "hash+snapshot", Depth: deep, Snap: true},
 		{Name: "path", Depth: shallow, Path: true},
-		{Name: "hash+snapshot@A-destructed", Depth: shallow, Snap: true, Prefix: []string{"SelfDestruct(A)", "EndTx"}},
-		{Name: "path@A-destructed", Depth: deep, Path: true, Prefix: []string{"SelfDestruct(A)", "EndTx"}},
-		{Name: "path@A-two-slots-written", Depth: deep, Path: true, Prefix: []string{"SetState(A,s0,3)", "SetState(A,s2,4)", "EndTx"}},
-		{Name: "hash+snapshot@A-two-slots-written", Depth: shallow, Snap: true, Prefix: []string{"SetState(A,s0,3)", "SetState(A,s2,4)", "EndTx"}},
+		{Name: "hash+snapshot@A-destructed", Focus: "A", Depth: shallow, Snap: true, Prefix: []string{"SelfDestruct(A)", "EndTx"}},
+		{Name: "path@A-destructed", Focus: "A", Depth: deep, Path: true, Prefix: []string{"SelfDestruct(A)", "EndTx"}},
+		{Name: "path@A-two-slots-written", Focus: "A", Depth: deep, Path: true, Prefix: []string{"SetState(A,s0,3)", "SetState(A,s2,4)", "EndTx"}},
+		{Name: "hash+snapshot@A-two-slots-written", Focus: "A", Depth: shallow, Snap: true, Prefix: []string{"SetState(A,s0,3)", "SetState(A,s2,4)", "EndTx"}},
 		{Name: "path@after-IntermediateRoot", Depth: shallow, Path: true, Prefix: c14AfterIR},
 		{Name: "hash+snapshot@after-IntermediateRoot", Depth: shallow, Snap: true, Prefix: c14AfterIR},
+		// dedicated families for contract code: an account that received code in the running block
+		// (new in this transaction / in an earlier transaction / destructed and recreated), with a
+		// second code, Snapshot and RevertToSnapshot one step away; alphabet focused on that account
+		{Name: "path@C-deployed-this-tx", Depth: deep, Path: true, Focus: "C", Prefix: []string{"Create(C)", "SetCode(C,c3)"}},
+		{Name: "hash+snapshot@C-deployed-earlier-tx", Depth: deep, Snap: true, Focus: "C", Prefix: []string{"Create(C)", "SetCode(C,c3)", "EndTx"}},
+		{Name: "path@A-recreated-with-code", Depth: deep, Path: true, Focus: "A", Prefix: []string{"SelfDestruct(A)", "EndTx", "Create(A)", "SetCode(A,c3)"}},
 		{Name: "path/cancun", Depth: shallow, Path: true, Cancun: true},
 		{Name: "hash", Depth: shallow, Path: false},
 		{Name: "hash+snapshot/cancun", Depth: shallow, Snap: true, Cancun: true},
@@ -1084,20 +1183,21 @@ func TestVerif_C14(t *testing.T) {
 	mc.Run(t, "C14", func(r *mc.R) {
 		defer debug.SetGCPercent(debug.SetGCPercent(400)) // allocation-heavy, tiny live heap
 		r.Rule("BFS over operation sequences on a StateDB opened on a committed base state (contract A with code and 2 slots, plain account B, absent C, untouched contract D); " +
-			"alphabet on A and C: SetState(s0,3|0), SetState(s2,4), writes of the committed base value of s0/s2 (restore), SelfDestruct, Create (= evm.create: CreateAccount if absent, CreateContract, nonce 1), AddBalance, SetCode; " +
+			"alphabet on A and C: SetState(s0,3|0), SetState(s2,4), writes of the committed base value of s0/s2 (restore), SelfDestruct, Create (= evm.create: CreateAccount if absent, CreateContract, nonce 1), AddBalance, SetCode with two codes that are not on disk; " +
+			"Snapshot / RevertToSnapshot (one window per transaction); " +
 			"EndTx (Finalise), IntermediateRoot mid-block, EndBlock (IntermediateRoot, Commit, next block on state.New(root)), Copy continuing on the copy / on the original (the other side is left alone and committed at EndBlock); " +
 			"one exploration per configuration {hash, hash+snapshot, path} x {pre-Cancun, Cancun} (+ prefetcher); a state = model + white-box fingerprint of the StateDB(s)")
 		r.Assume("reference model = plain account table (balance, nonce, code, storage) with transaction/block boundaries; expected roots from an ordered stack trie over the table")
 		r.Assume("API contract as driven by the EVM: SetState/SetCode on existing accounts, Create only on addresses without nonce/code/storage, SelfDestruct of pre-existing accounts only before Cancun (EIP-6780 afterwards)")
 		r.Assume("getter sweeps and reopen checks run on the new transition of every explored sequence (prefixes are re-executed without observation, so observation never perturbs an explored history)")
-		ops := c14Ops()
-		names := make([]string, len(ops))
-		for i, o := range ops {
-			names[i] = o.name()
-		}
 		for _, cfg := range c14Configs(r) {
 			if r.Expired() {
 				break
+			}
+			ops := c14OpsFor(cfg)
+			names := make([]string, len(ops))
+			for i, o := range ops {
+				names[i] = o.name()
 			}
 			r.Explore(mc.Config{
 				Name:  cfg.Name,
@@ -1111,6 +1211,8 @@ func TestVerif_C14(t *testing.T) {
 		r.OutcomeN("roots_reopened_and_checked", c14Reopens.Load())
 		r.OutcomeN("roots_persisted_and_reopened_from_disk", c14Persisted.Load())
 		r.OutcomeN("follow_up_blocks_on_committed_roots", c14FollowUps.Load())
+		r.OutcomeN("reverts_to_snapshot", c14Reverts.Load())
+		r.OutcomeN("code_blobs_checked_on_disk_and_through_cold_reader", c14ColdCode.Load())
 		r.OutcomeN("copy_other_side_sweeps", c14AsideSweeps.Load())
 		r.OutcomeN("commits_wiping_a_destructed_account_with_storage", c14Wipes.Load())
 		r.OutcomeN("commits_with_destructed_account_recreated_in_the_block", c14Resurrections.Load())
